@@ -118,6 +118,9 @@ func (e *engine) evalCases(cases []Case, model []string) {
 			e.rep.Fail(common.OracleFailure{Engine: "router", Key: "panic:load", Case: c, Detail: fmt.Sprint(bpan)})
 			continue
 		}
+		if key, detail := c.judgeLoad(bres); key != "" {
+			e.rep.Fail(common.OracleFailure{Engine: "router", Key: key, Case: c, Detail: detail})
+		}
 		if model != nil && model[spans[i].build] != bres {
 			e.rep.Diverge(common.Divergence{Engine: "router", Case: c, Impl: bres, Model: model[spans[i].build], Note: "load result"})
 		}
@@ -148,10 +151,14 @@ func (e *engine) evalCases(cases []Case, model []string) {
 					one.Requests = []ReqSpec{q}
 					e.rep.Fail(common.OracleFailure{Engine: "router", Key: key, Case: one, Detail: detail})
 				}
-				if model != nil && model[spans[i].req+k] != impl {
+				implFull := impl
+				if route != "" {
+					implFull += " @" + route
+				}
+				if model != nil && model[spans[i].req+k] != implFull {
 					one := *c
 					one.Requests = []ReqSpec{q}
-					e.rep.Diverge(common.Divergence{Engine: "router", Case: one, Impl: impl, Model: model[spans[i].req+k], Note: q.line()})
+					e.rep.Diverge(common.Divergence{Engine: "router", Case: one, Impl: implFull, Model: model[spans[i].req+k], Note: q.line()})
 				}
 			}
 			e.rep.TracesValidated++
@@ -241,8 +248,11 @@ func (e *engine) countRoute(rt RouteSpec) {
 			e.rep.Count(name + ":bitset")
 		}
 	}
-	pr("fromPorts", rt.FromPorts, rt.FromRanges)
-	pr("toPorts", rt.ToPorts, rt.ToRanges)
+	pr("fromPorts", rt.FromPorts, rt.fromItems())
+	if rt.FromRangesRaw != nil || rt.ToRangesRaw != nil {
+		e.rep.Count("portRanges:raw-string")
+	}
+	pr("toPorts", rt.ToPorts, rt.toItems())
 	if len(rt.ToDomains) > 16 {
 		e.rep.Count("toDomains>16")
 	} else if len(rt.ToDomains) > 0 {
@@ -303,6 +313,50 @@ func (e *engine) probeExcluded() {
 	}
 }
 
+// directedCases: fromUsers with the empty user name and unknown users; port-range strings as written (odd but
+// well-formed, and malformed); a resolver named by a route that is only in resolverMap / only in the slice.
+func directedCases() []Case {
+	base := Case{TCPClients: []string{"c0", "c1", "c2"}, UDPClients: []string{"c0", "c1", "c2"}, Servers: []string{"s0"}, DefTCP: "c0", DefUDP: "c0"}
+	var cs []Case
+	users := base
+	users.Routes = []RouteSpec{
+		{Name: "listed", Client: "c1", FromUsers: []string{"alice"}, Network: "tcp"},
+		{Name: "anonymous-listed", Client: "c2", FromUsers: []string{"", "bob"}, Network: "udp"},
+		{Name: "not-alice", Client: "c2", FromUsers: []string{"alice", "bob"}, InvFromUsers: true},
+	}
+	for _, u := range []string{"", "alice", "bob", "mallory", "Alice", "alice ", " alice", "alice\x00", "ali"} {
+		for _, n := range []string{"tcp", "udp"} {
+			users.Requests = append(users.Requests, ReqSpec{Net: n, User: u, Src: "10.0.0.1", SrcPort: 1000, DstIP: "1.2.3.4", DstPort: 80})
+		}
+	}
+	cs = append(cs, users)
+	for _, s := range []string{"80,443", "080,0443", "80,443,", "1-2,2-3,3-10", "8000-8100,8050", "65535", "1,3,5,7,9,11,13,15,17,19,21,23,25,27,29,31,33,35",
+		"", ",", "80,,443", "80, 443", " 80", "80 ", "+80", "-80", "80-", "80-80", "90-80", "0", "0-5", "65536", "1-65536", "1-2-3", "0x50", "８０", "80;443", "80\n", "a", "1e2", "99999999999999999999"} {
+		c := base
+		raw := s
+		c.Routes = []RouteSpec{{Name: "to", Client: "c1", ToRangesRaw: &raw}, {Name: "from", Client: "c2", FromRangesRaw: &raw, InvFromPorts: true}}
+		for _, p := range []int{0, 1, 2, 3, 10, 11, 35, 36, 79, 80, 81, 443, 8000, 8050, 8100, 8101, 65535} {
+			c.Requests = append(c.Requests, ReqSpec{Net: "tcp", User: "u", Src: "10.0.0.1", SrcPort: p, DstIP: "1.2.3.4", DstPort: p})
+		}
+		cs = append(cs, c)
+	}
+	res := base
+	res.Resolvers = []string{"dns1", "dns2"}
+	res.ResolverMap = []string{"dns2", "dnsX"}
+	res.Resolve = map[string]map[string]string{"dns1": {"a.test": "a10.0.0.1"}, "dns2": {"a.test": "a1.2.3.4"}, "dnsX": {"a.test": "a8.8.8.8"}}
+	res.Routes = []RouteSpec{
+		{Name: "map-only", Client: "c1", Resolver: "dnsX", ToPrefixes: []string{"8.8.8.8/32"}},
+		{Name: "both", Client: "c2", Resolver: "dns2", ToPrefixes: []string{"1.2.3.4/32"}},
+		{Name: "all", Client: "reject", ToPrefixes: []string{"10.0.0.0/8"}},
+	}
+	res.Requests = []ReqSpec{{Net: "tcp", User: "u", Src: "10.0.0.1", SrcPort: 1, DstDom: "a.test", DstPort: 80}}
+	cs = append(cs, res)
+	sliceOnly := res
+	sliceOnly.Routes = []RouteSpec{{Name: "slice-only", Client: "c1", Resolver: "dns1", ToPrefixes: []string{"10.0.0.0/8"}}}
+	cs = append(cs, sliceOnly)
+	return cs
+}
+
 func main() {
 	o := common.ParseFlags()
 	rep := common.NewReport("C09", o)
@@ -328,6 +382,9 @@ func main() {
 		before := rep.Distribution["ORACLE-FAIL:"+f3Key]
 		err = e.evalAll(f3Cases())
 		rep.FindingsProbed[f3Key] = rep.Distribution["ORACLE-FAIL:"+f3Key] > before
+		if err == nil {
+			err = e.evalAll(directedCases())
+		}
 		r := common.NewRng(o.Seed)
 		n := o.Budget(1500, 24000)
 		nreq := 20
